@@ -153,18 +153,6 @@ func strTruncateFunc(_ *ctx.EvalCtx, receiver object.Object, args ...object.Obje
 		return nil, errors.New(msg)
 	}
 
-	val := receiver.(*object.Str).Value
-	chars := []rune(val)
-	limit := int(firstArg.Value)
-
-	if limit >= len(chars) {
-		return &object.Str{Value: val}, nil
-	}
-
-	if limit < 0 {
-		limit = 0
-	}
-
 	ellipsis := "..."
 
 	if len(args) > 1 {
@@ -176,6 +164,18 @@ func strTruncateFunc(_ *ctx.EvalCtx, receiver object.Object, args ...object.Obje
 			msg := fmt.Sprintf(fail.ErrFuncSecondArgStr, "truncate", object.STR_OBJ)
 			return nil, errors.New(msg)
 		}
+	}
+
+	val := receiver.(*object.Str).Value
+	chars := []rune(val)
+	limit := int(firstArg.Value)
+
+	if limit >= len(chars) {
+		return &object.Str{Value: val}, nil
+	}
+
+	if limit < 0 {
+		limit = 0
 	}
 
 	newVal := string(chars[:limit]) + ellipsis
